@@ -203,7 +203,9 @@ def pickFields (sel : Option (List Nat)) (fields : List FMeta) : Except Err (Lis
   | some urns =>
     let set := urns.eraseDups
     let picked := all.filter (fun im => set.contains im.2.urn)
-    if picked.length ≠ set.length then .error .fieldsNotFound
+    -- fix 5caebc0: "all requested urns were found" is decided by urn, not by the number of fields picked (the
+    -- available fields may hold one urn twice, e.g. a selected field re-using an existing urn)
+    if (picked.map (·.2.urn)).eraseDups.length ≠ set.length then .error .fieldsNotFound
     else if picked.isEmpty then .error .noFields
     else .ok picked
 
